@@ -59,6 +59,7 @@ type FuncContract struct {
 	HasMod    bool
 	Loops     map[int][]*Clause
 	CallAsrt  []*Clause
+	NeverCalls []*Clause // never_calls [label] f g: the function contains no call of these callees (syntactic frame for registries)
 	Defines   []*Clause // definitional postconditions: name the result as a function of the arguments; assumed at call sites, not provable from the body (determinism), listed as assumptions
 	Inline    bool // verify by inlining at call sites (no contract)
 	Implements string
@@ -183,7 +184,7 @@ func (c *Contracts) LoadContractFile(path, pkgPrefix string, trusted bool) error
 		}
 	}
 	// merge continuation lines: a line whose first token is not a keyword continues the previous one
-	keywords := map[string]bool{"func": true, "functype": true, "requires": true, "ensures": true, "proves": true, "defines": true, "let": true, "modifies": true,
+	keywords := map[string]bool{"func": true, "functype": true, "requires": true, "ensures": true, "proves": true, "defines": true, "never_calls": true, "let": true, "modifies": true,
 		"pure": true, "loop": true, "at": true, "spec": true, "ghost": true, "axiom": true, "lemma": true, "regex": true, "pred": true, "type": true, "smt": true,
 		"inline": true, "implements": true, "signature": true, "trusted": true, "nosafety": true, "opaque": true, "params": true, "results": true}
 	var merged []line
@@ -280,6 +281,21 @@ func (c *Contracts) LoadContractFile(path, pkgPrefix string, trusted bool) error
 					cur.Modifies = append(cur.Modifies, e)
 				}
 			}
+		case kw == "never_calls":
+			// never_calls [label] f g ...
+			lab, rest2 := "", rest
+			if strings.HasPrefix(rest, "[") {
+				if k := strings.Index(rest, "]"); k > 0 {
+					lab, rest2 = rest[:k+1], strings.TrimSpace(rest[k+1:])
+				}
+			}
+			cl, err := mkClause("never_calls", lab+" true")
+			if err != nil {
+				return err
+			}
+			cl.Src = "never calls " + rest2
+			cl.Callee = rest2
+			cur.NeverCalls = append(cur.NeverCalls, cl)
 		case kw == "pure":
 			cur.Pure = true
 		case kw == "trusted":
